@@ -58,9 +58,12 @@ class _Subst(ast.NodeTransformer):
                     return ast.copy_location(ast.Name(id=ren[n.id], ctx=n.ctx), n)
                 return n
 
+        # the first iterable is evaluated in the enclosing scope (comprehension targets do not shadow it)
+        first_iter = self.visit(node.generators[0].iter)
+        node.generators[0].iter = ast.Constant(value=None)
         node = R().visit(node)
-        for g in node.generators:
-            g.iter = inner.visit(g.iter)
+        for i_, g in enumerate(node.generators):
+            g.iter = first_iter if i_ == 0 else inner.visit(g.iter)
             g.ifs = [inner.visit(i) for i in g.ifs]
         for f in ("elt", "key", "value"):
             if hasattr(node, f):
